@@ -43,6 +43,14 @@ mod generate;
 #[cfg(test)]
 mod test_util;
 
+#[cfg(lalrpop_verif)]
+mod verif_hooks;
+#[cfg(lalrpop_verif)]
+#[doc(hidden)]
+pub mod __verif {
+    pub use crate::verif_hooks::{set_permutation, take_stats};
+}
+
 pub use crate::api::Configuration;
 pub use crate::api::process_root;
 #[allow(deprecated)]
